@@ -406,6 +406,11 @@ def audit(form, xform):
                 m = re.search(r"rows=(\d+)", row.get("parameters", "")) if bt == "text" else None
                 if m and c.get("rows") != m.group(1):
                     probs.append(f"{ref}: rows attribute {c.get('rows')!r} != parameter {m.group(1)!r}")
+                if bt in ("geopoint", "geoshape", "geotrace"):
+                    for prm_, att_ in (("capture-accuracy", "accuracyThreshold"), ("warning-accuracy", "unacceptableAccuracyThreshold")):
+                        m = re.search(prm_ + r"=([-0-9.e]+)", row.get("parameters", ""))
+                        if (m.group(1) if m else None) != c.get(att_):
+                            probs.append(f"{ref}: {att_} is {c.get(att_)!r}, the parameter {prm_} says {m.group(1) if m else None!r}")
     cmp_body(controls(body), exp, "/" + name_of(inst))
     return probs
 
@@ -419,6 +424,11 @@ def _check(args):
     survey = form["survey"]
     # rows=N together with an appearance; disabled rows (yes and no); comment rows
     for r in survey:
+        if r.get("type") in ("geopoint", "geoshape", "geotrace") and rng.random() < 0.6:
+            # thresholds, zero included (capture-accuracy=0: never stop by itself)
+            extra_ = [f"{k_}={rng.choice(['0', '0.0', '5', '2.5', '10'])}" for k_ in ("capture-accuracy", "warning-accuracy") if rng.random() < 0.6 and k_ not in r.get("parameters", "")]
+            if extra_:
+                r["parameters"] = " ".join(([r["parameters"]] if r.get("parameters") else []) + extra_)
         if r.get("type") == "text" and rng.random() < 0.4:
             r["parameters"] = f"rows={rng.choice([2, 3, 6])}"
             if rng.random() < 0.6:
